@@ -136,6 +136,28 @@ def gen(tier, seed):
         sh = [('struct', [('tuple', ['f', 'i', 'w'])]), ('enum', [('named', ['f', 'm']), ('tuple', ['i', 'f']), ('unit', [])]), ('struct', [('named', ['m', 'f'])])][j]
         mods.append(emit(f'm{n:04d}', f'{S.shape_id(sh)}/peq=0/explicitly not ignored #{j}', sh, False, sp=Spelling(force={'notignoreform': j})))
         n += 1
+    decl, anyv, vidx = S.big_enum('Hash')
+    h = Harness('h_big', unwind=8, covers=['same variant', 'variants 256 apart'])
+    body = decl + anyv + vidx + h.attrs() + '''pub fn h_big() {
+    let a = anyv();
+    let b = anyv();
+    let ra = rec_of(&a);
+    let rb = rec_of(&b);
+    assert!(!ra.overflow && !rb.overflow, "recorder capacity exceeded");
+    let (ia, ib) = (vidx(&a), vidx(&b));
+    kani::cover!(ia == ib, "same variant");
+    kani::cover!(ia + 256 == ib, "variants 256 apart");
+    let same_payload = match (&a, &b) { (Big::Last(x), Big::Last(y)) => x == y, _ => true };
+    if ia == ib && same_payload {
+        assert!(ra.same(&rb), "same variant fed different data");
+    }
+    if ia != ib {
+        assert!(!ra.same(&rb), "two different variants of a 261-variant enum fed identical data");
+    }
+}
+'''
+    mods.append(Module(f'm{n:04d}', 'enum with 261 variants (V0..V259, Last(u8)): the variant tag must stay injective beyond 256', body, [h], sample=dict(type_definition='enum Big { V0, .., V259, Last(u8) }'), functions=FUNCTIONS))
+    n += 1
     from .runner import empty_enum_module
     mods.append(empty_enum_module(f'm{n:04d}', 'Hash', 'core::hash::Hash', FUNCTIONS))
     return mods
